@@ -17,7 +17,7 @@ def sh(cmd, cwd, env=None, timeout=3000):
     return r.returncode, r.stdout
 
 def confirm(k, d):
-    name = d.rstrip("/").replace("/tmp/mut3/", "r3-").replace("/tmp/mut2/", "r2-").replace("/tmp/mut/", "").replace("/", "-")
+    name = d.rstrip("/").replace("/tmp/mut4/", "r4-").replace("/tmp/mut5/", "r5-").replace("/tmp/mut3/", "r3-").replace("/tmp/mut2/", "r2-").replace("/tmp/mut/", "").replace("/", "-")
     wt = "/tmp/cf/wt-%s" % name
     res = {"mutant": d, "name": name}
     env = dict(os.environ, CARGO_TARGET_DIR="/tmp/cf/target-%d" % k, CARGO_NET_OFFLINE="true")
@@ -26,6 +26,9 @@ def confirm(k, d):
         demo_path = meta["demo_path"]
         demo_file = [f for f in os.listdir(d) if f.startswith("demo") and f.endswith(".rs")][0]
         test_name = os.path.basename(demo_path)[:-3]
+        import re as _re
+        mfe = _re.search(r"--features[ =](\S+)", meta.get("demo_cmd", ""))
+        feat = ["--features", mfe.group(1)] if mfe else []
         subprocess.run(["git", "-C", "/repo", "worktree", "remove", "--force", wt], stdout=subprocess.DEVNULL, stderr=subprocess.DEVNULL)
         rc, out = sh(["git", "-C", "/repo", "worktree", "add", "-q", "--detach", wt, "HEAD"], "/")
         if rc != 0:
@@ -33,7 +36,7 @@ def confirm(k, d):
             return res
         shutil.copy(os.path.join(d, demo_file), os.path.join(wt, demo_path))
         t0 = time.time()
-        rc, out = sh(["cargo", "test", "--offline", "--test", test_name], wt, env)
+        rc, out = sh(["cargo", "test", "--offline"] + feat + ["--test", test_name], wt, env)
         res["demo_passes_without_patch"] = rc == 0
         res["demo_clean_tail"] = out[-400:] if rc != 0 else ""
         rc, out = sh(["git", "apply", "--3way", os.path.join(d, "patch.diff")], wt)
@@ -43,7 +46,7 @@ def confirm(k, d):
         if rc != 0:
             res["error"] = "patch: " + out[-300:]
             return res
-        rc, out = sh(["cargo", "test", "--offline", "--test", test_name], wt, env)
+        rc, out = sh(["cargo", "test", "--offline"] + feat + ["--test", test_name], wt, env)
         res["demo_fails_with_patch"] = rc != 0
         fail_lines = [l for l in out.splitlines() if "panicked" in l or "assertion" in l or "FAILED" in l or "error" in l.lower()][:4]
         res["demo_failure"] = " | ".join(fail_lines)[:500]
